@@ -48,13 +48,15 @@ func checkC14(c *Ctx) {
 		"K4 the read buffer is allocated inside the loop, the decoder is given exactly rbuf[:n], and the decoded message does not alias the buffer (E3, shared with C08)",
 		"K5 (v4) peer rewrite to {IPv4bcast, sender port} exactly under IP==nil or To4().Equal(IPv4zero)",
 		"K6 Close deferred on entry; Close closes the connection",
-		"K7 the handler field Serve reads is only ever set to the handler parameter the caller passed (no wrapper)")
+		"K7 the handler field Serve reads is only ever set to the handler parameter the caller passed (no wrapper)",
+		"K8 the panic obligations (E4, including results used although their error was dropped) of the serve methods and of every function they call synchronously outside the decoder closure are closed")
 	r.NotDecided = append(r.NotDecided,
 		"handler concurrency and socket behaviour", "arbitrary datagram histories (only the per-iteration structure is judged)",
 		"equality of the decoded message with the datagram's decoding beyond 'decoder receives rbuf[:n]' (C01/C02/C04/C05)")
 	r.Expect("C14-serve-loops", 2)
 	c14HandlerField(c, modPath+"/dhcpv4/server4", "server4")
 	c14HandlerField(c, modPath+"/dhcpv6/server6", "server6")
+	var serves []*ssa.Function
 	for _, pk := range []struct{ path, dec, short string }{
 		{modPath + "/dhcpv4/server4", modPath + "/dhcpv4", "server4"},
 		{modPath + "/dhcpv6/server6", modPath + "/dhcpv6", "server6"},
@@ -90,6 +92,31 @@ func checkC14(c *Ctx) {
 		}
 		r.Count("C14-serve-loops", 1)
 		c14Serve(c, cands[0], pk.dec, pk.short)
+		serves = append(serves, cands[0])
+	}
+	// K8: nothing the loop itself executes (synchronously, outside the handler goroutine) can panic: the panic
+	// obligations of the serve methods and of what they call besides the decoders (whose closure is C03's)
+	if len(serves) > 0 {
+		e, err := newE4(c, "C14-K8")
+		if err != nil {
+			r.Undecided("C14-K8", "compiler diagnostics / ledger", "-", err.Error())
+			return
+		}
+		e.ledgerPrefix = "C03-K1"
+		dec := map[*ssa.Function]bool{}
+		for _, f := range closureOf(c.P, c03Roots(c)) {
+			dec[f] = true
+		}
+		var funcs []*ssa.Function
+		for _, f := range closureOf(c.P, serves) {
+			if !dec[f] || f == serves[0] || (len(serves) > 1 && f == serves[1]) {
+				funcs = append(funcs, f)
+			}
+		}
+		res := e.run(funcs)
+		e4Nil(e, funcs, res)
+		r.Count("C14-K8-functions", len(funcs))
+		r.Expect("C14-K8-functions", 2)
 	}
 }
 
